@@ -2,7 +2,7 @@
 import ast
 
 from ..astx import (calls_in, dotted, norm, src, iter_nodes, assigned_targets, assigned_names,
-                    const_value, is_const, parent_chain)
+                    const_value, is_const, parent_chain, aliases_of)
 from ..lib import (cfg_nodes_with_call, node_calls, returns, raises, stmt_assigns_attr, callee_last,
                    is_name, node_roots, guard_region, compare_parts, find_test_nodes)
 from ..linear import ctext, lin, Lin, slice_bounds
@@ -146,6 +146,9 @@ def run(R):
         dec = repo.func('screen:screen._decode')
         ks = [k for k in calls_in(dec.node) if callee_last(k) == 'decode']
         ok = len(ks) == 1 and norm(ks[0].func.value) == 'self.decoder' and len(ks[0].args) == 1 and not any(kw.arg == 'final' and not is_const(kw.value, False) for kw in ks[0].keywords)
+        gd_ = dec.cfg
+        tdn = [t for t in gd_.nodes if t.kind == 'test' and norm(t.ast) == 'self.decoder is not None']
+        ok = ok and len(tdn) == 1 and gd_.node_for(ks[0]) in guard_region(gd_, tdn[0], 'true')
         c.check(ok, dec, ks[0] if ks else None, 'bytes are decoded by the persistent incremental decoder without final=True (a character cut by a chunk boundary is completed by the next chunk)',
                 witness=norm(ks[0]) if ks else '', kind='ast', tag='decoder')
         sites = []
@@ -181,6 +184,8 @@ def run(R):
         check_shape(c, repo)
     with R.clause('D6', 'PAIR', floor=6, desc='every writer of the cursor fields ends in cursor_constrain()') as c:
         check_cursor_pair(c, repo)
+    with R.clause('D8', 'RESOLVE', floor=40, desc='every call an action / terminal method makes on the screen resolves to an existing method with a fitting arity (no AttributeError / TypeError at run time)') as c:
+        check_resolve(c, repo, acts)
     with R.clause('D7', 'PRECEDENCE', floor=4, desc='FSM: exact > any > default; action runs before the state is committed') as c:
         check_fsm_class(c, repo)
 
@@ -424,6 +429,51 @@ def row_move_semantics(f, tg, value, up):
     return sorted(probs.items())
 
 
+def check_resolve(c, repo, acts):
+    ansi = repo.cls('ANSI')
+    units = [action_func(repo, a) for a in acts] + [f for cl in (ansi, repo.cls('term'), repo.cls('screen')) for f in cl.methods.values()]
+    seen = set()
+    for f in units:
+        if f.qual in seen:
+            continue
+        seen.add(f.qual)
+        al = aliases_of(f)
+        for k in calls_in(f.node):
+            if not isinstance(k.func, ast.Attribute):
+                continue
+            recv = k.func.value
+            p = al.canon(recv)
+            target_cls = None
+            if p == 'self' and f.cls is not None and repo.is_subclass(f.cls, 'screen'):
+                target_cls = ansi if f.cls.name in ('ANSI', 'term') else ansi   # a screen method may be called on an ANSI object: resolve in the widest class
+                own = f.cls
+            elif p == 'fsm.memory[0]':
+                target_cls = ansi
+                own = ansi
+            elif isinstance(recv, ast.Name) and recv.id == 'screen' and 'screen' not in al.counts and 'screen' not in f.params and f.module.name == 'ANSI':
+                # `screen` not bound locally: it is the imported MODULE -- a method call on it is an AttributeError
+                c.bad(f, k, '`screen` is not bound in this action (it is the imported module here): screen.%s() raises AttributeError when the sequence is fed'
+                      % k.func.attr, kind='flow', tag='unbound-screen:' + f.qual)
+                continue
+            else:
+                continue
+            m = repo.resolve_method(own if p == 'self' else target_cls, k.func.attr)
+            if m is None and p == 'self':
+                m = repo.resolve_method(ansi, k.func.attr) if f.cls.name != 'screen' else None
+                if m is None and k.func.attr in ('decoder',):
+                    continue
+            if m is None:
+                c.bad(f, k, 'no method %s() exists on the terminal classes: AttributeError when this code runs' % k.func.attr, kind='flow', tag='no-method:%s:%s' % (f.qual, k.func.attr))
+                continue
+            ps = m.params[1:] if m.params and m.params[0] in ('self',) else m.params
+            a_ = m.node.args
+            nreq = len(a_.args) - len(a_.defaults) - (1 if m.params and m.params[0] == 'self' else 0)
+            npos = len(k.args)
+            okar = (npos + len(k.keywords) >= nreq) and (npos <= len(ps) or a_.vararg is not None)
+            c.check(okar, f, k, '%s() is called with a number of arguments it accepts' % k.func.attr, witness='%d given, %d..%d accepted' % (npos, nreq, len(ps)),
+                    kind='flow', tag='arity:%s:%s' % (f.qual, norm(k)[:30]))
+
+
 def check_cursor_pair(c, repo):
     n = 0
     for f in repo.package_funcs():
@@ -437,6 +487,8 @@ def check_cursor_pair(c, repo):
             c.check(all(is_const(m.ast.value, 1) for m in asg), f, asg[0].ast, 'the cursor starts at (1, 1)', kind='ast', tag='init-cursor')
             continue
         if f.name == 'cursor_constrain':
+            flds = set('cur_r' if stmt_assigns_attr(m.ast, 'cur_r') is not None else 'cur_c' for m in asg)
+            c.check(flds == {'cur_r', 'cur_c'}, f, f.node, 'cursor_constrain clamps BOTH the row and the column', witness=str(sorted(flds)), kind='ast', tag='constrain-both')
             for m in asg:
                 fld = 'cur_r' if stmt_assigns_attr(m.ast, 'cur_r') is not None else 'cur_c'
                 bound = 'self.rows' if fld == 'cur_r' else 'self.cols'
@@ -484,8 +536,21 @@ def check_fsm_class(c, repo):
     loops = [n for n in iter_nodes(b.node) if isinstance(n, ast.For)]
     ok = len(ks) == 1 and len(loops) == 1 and is_name(loops[0].iter, b.params[1]) and [norm(a) for a in ks[0].args] == [loops[0].target.id, 'state', 'action', 'next_state']
     c.check(ok, b, ks[0] if ks else None, 'add_transition_list adds the same transition for every symbol of the list', kind='ast', tag='builder:list')
+    for name in ('add_transition', 'add_transition_list', 'add_transition_any'):
+        b = repo.func('FSM:FSM.' + name)
+        gb = b.cfg
+        tn_ = [t for t in gb.nodes if t.kind == 'test' and norm(t.ast) == 'next_state is None']
+        an_ = [n for t in tn_ for n in guard_region(gb, t, 'true') if n.kind == 'stmt' and isinstance(n.ast, ast.Assign) and norm(n.ast) == 'next_state = state']
+        c.check(len(tn_) == 1 and len(an_) == 1, b, tn_[0].ast if tn_ else None, '%s: an omitted next_state means "stay in the same state", a given one is kept' % name, kind='path', tag='builder-default:' + name)
+    sd = repo.func('FSM:FSM.set_default_transition')
+    asg = [n for n in iter_nodes(sd.node) if isinstance(n, ast.Assign) and stmt_assigns_attr(n, 'default_transition') is not None]
+    c.check(len(asg) == 1 and norm(asg[0].value) == '(action, next_state)', sd, asg[0] if asg else sd.node, 'set_default_transition stores (action, next_state)', kind='ast', tag='builder:default')
     p = repo.func('FSM:FSM.process')
     gp = p.cfg
+    isym = [n for n in gp.nodes if n.kind == 'stmt' and stmt_assigns_attr(n.ast, 'input_symbol') is not None and is_name(n.ast.value, p.params[1])]
+    acts_ = [n for n, k in cfg_nodes_with_call(p, lambda k: norm(k.func) == 'self.action')]
+    c.check(len(isym) == 1 and bool(acts_) and gp.dominated_by(acts_[0], {isym[0]})[0], p, isym[0].ast if isym else None,
+            'process() publishes the current symbol (fsm.input_symbol) before the action runs', kind='path', tag='symbol-before-action')
     act = [n for n, k in cfg_nodes_with_call(p, lambda k: norm(k.func) == 'self.action')]
     com = [n for n in gp.nodes if n.kind == 'stmt' and stmt_assigns_attr(n.ast, 'current_state') is not None]
     ok = len(act) == 1 and len(com) == 1 and gp.path(com[0], act[0], skip_labels=('exc',)) is None and norm(com[0].ast.value) == 'self.next_state' \
@@ -521,6 +586,12 @@ MUTANTS = [
     ('put-abs-unclamped-col', 'screen', "        r = constrain (r, 1, self.rows)\n        c = constrain (c, 1, self.cols)\n        if isinstance(ch, bytes):\n            ch = self._decode(ch)[0]", "        r = constrain (r, 1, self.rows)\n        if isinstance(ch, bytes):\n            ch = self._decode(ch)[0]", 'D5'),
     ('cursor-down-noconstrain', 'screen', "        self.cur_r = self.cur_r + count\n        self.cursor_constrain ()", "        self.cur_r = self.cur_r + count", 'D6'),
     ('region-rows-unconstrained', 'screen', "        self.scroll_row_start = rs\n        self.scroll_row_end = re\n        self.scroll_constrain()", "        self.scroll_row_start = rs\n        self.scroll_row_end = re", 'D5'),
+    ('emit-unbound-screen', 'ANSI', "def DoEmit (fsm):\n\n    screen = fsm.memory[0]\n    screen.write_ch(fsm.input_symbol)", "def DoEmit (fsm):\n\n    screen.write_ch(fsm.input_symbol)", 'D8'),
+    ('back-typo-method', 'ANSI', "    screen = fsm.memory[0]\n    screen.cursor_back (count)", "    screen = fsm.memory[0]\n    screen.cursor_backward (count)", 'D8'),
+    ('constrain-row-only', 'screen', "        self.cur_r = constrain (self.cur_r, 1, self.rows)\n        self.cur_c = constrain (self.cur_c, 1, self.cols)", "        self.cur_r = constrain (self.cur_r, 1, self.rows)", 'D6'),
+    ('fsm-default-not-stored', 'FSM', "        self.default_transition = (action, next_state)", "        pass", 'D7'),
+    ('fsm-next-state-inverted', 'FSM', "        if next_state is None:\n            next_state = state\n        self.state_transitions[(input_symbol, state)] = (action, next_state)", "        if next_state is not None:\n            next_state = state\n        self.state_transitions[(input_symbol, state)] = (action, next_state)", 'D7'),
+    ('fsm-symbol-late', 'FSM', "        self.input_symbol = input_symbol\n        (self.action, self.next_state)", "        (self.action, self.next_state)", 'D7'),
     ('fsm-any-first', 'FSM', "        if (input_symbol, state) in self.state_transitions:\n            return self.state_transitions[(input_symbol, state)]\n        elif state in self.state_transitions_any:\n            return self.state_transitions_any[state]", "        if state in self.state_transitions_any:\n            return self.state_transitions_any[state]\n        elif (input_symbol, state) in self.state_transitions:\n            return self.state_transitions[(input_symbol, state)]", 'D7'),
     ('fsm-commit-first', 'FSM', "        if self.action is not None:\n            self.action (self)\n        self.current_state = self.next_state\n        self.next_state = None", "        self.current_state = self.next_state\n        if self.action is not None:\n            self.action (self)\n        self.next_state = None", 'D7'),
 ]
